@@ -141,6 +141,15 @@ def check(repo, tier):
             objs = ets + ([res[-1]] if st else [])
             if len({id(t) for t in objs}) != len(objs):
                 bad.append('two returned tensor trains are the same object')
+            ninv_of = {}
+            from . import mx as _mx
+            eigs_ = [e_ for e_ in sc.events('eig') if e_.get('fn') is not None and e_['fn'].mod == MOD]
+            left_inv = set()          # pairs whose reduced matrix carries its one S^-1 at the left end (then the eigentensor core is U W, without a further inverse)
+            if len(eigs_) == npairs:
+                for k, e_ in enumerate(eigs_):
+                    mm = _mx.canon(e_['matrix'].tags['mx']) if 'mx' in e_['matrix'].tags else ()
+                    if len(mm) >= 3 and [i_ for i_, f_ in enumerate(mm) if f_[0] == 'Sinv'] == [0]:
+                        left_inv.add(k)
             for k, t in enumerate(ets):
                 if not l2rules.invariant_obligation(run, 'C18', 'D2', repo, sc, t, entry, scen, f'eigentensor {k}', chain=False):
                     continue
@@ -199,7 +208,10 @@ def check(repo, tier):
                     bad.append(f'the last core of eigentensor {k} is computed from the uncut factor(s) {sorted(raw_used)} of a decomposition whose singular values were cut by the relative threshold '
                                f'(the discarded directions stay in the eigentensor, with their tiny singular values inverted)')
                 n_inv = max(len(svals), sum(1 for f_ in mlast if f_[0] == 'Sinv'))
-                if n_inv != 1:
+                ninv_of[k] = n_inv
+                if n_inv == 0 and k in left_inv:
+                    pass
+                elif n_inv != 1:
                     if n_inv == 0 and any(f_[0] == 'src' for f_ in mlast) and not any(f_[0] == 'S' for f_ in mlast):
                         raise AnalysisError(f'{scen}: the way the inverse singular values enter the last core of eigentensor {k} is not recognised ({mx.show(mlast)})')
                     bad.append(f'the last core of eigentensor {k} contains {n_inv} inverse(s) of the singular values instead of exactly one')
@@ -218,6 +230,23 @@ def check(repo, tier):
                         bad.append(f'eigenvalues {k} are indexed by {list(lw)} but the eigentensor columns by {list(lv)}')
                 else:
                     bad.append(f'eigenvalue array {k} is not a vector')
+            # convention of the reduced matrix and of the eigentensor core agree: with M = V Y^T U S^-1 (inverse singular values on the right) the eigentensor is
+            # U S^-1 W; the similar matrix S^-1 V Y^T U has the same eigenvalues but eigenvectors S^-1 W, so U S^-1 times them carries the inverse twice
+            if len(eigs_) == npairs:
+                for k, e_ in enumerate(eigs_):
+                    mm = _mx.canon(e_['matrix'].tags['mx']) if 'mx' in e_['matrix'].tags else ()
+                    inv_pos = [i_ for i_, f_ in enumerate(mm) if f_[0] == 'Sinv']
+                    if len(inv_pos) != 1 or len(mm) < 3 or k not in ninv_of:
+                        continue
+                    left = inv_pos[0] == 0
+                    right = inv_pos[0] == len(mm) - 1
+                    if not (left or right):
+                        continue
+                    okc = (right and ninv_of[k] == 1) or (left and ninv_of[k] == 0)
+                    run.oblige('D2', (entry, scen, k, 'convention'), okc)
+                    if not okc and left:
+                        bad.append(f'the reduced matrix of pair {k} is  {_mx.show(mm)}  (inverse singular values on the left): its eigenvectors are S^-1 W, and the eigentensor core U S^-1 (S^-1 W) '
+                                   f'carries the inverse singular values twice; the eigenvalues are unaffected')
             # shared decomposition untouched: every eigentensor shares no core-list with another and psi's last core is the decomposed one
             run.oblige('D1', (entry, scen), not bad, sample={'rule': 'D1', 'scenario': scen, 'verdict': 'held' if not bad else 'VIOLATED'})
             if bad:
